@@ -7,11 +7,10 @@ import (
 	"sync/atomic"
 
 	"github.com/gontainer/gontainer-helpers/v3/container"
+	gvserial "gv.test/fix/serial"
 )
 
 const FixturePkg = "@PATH@"
-
-var serial int64
 
 // Counters of constructor / function invocations (for the concurrency probes).
 var Invocations = map[string]*int64{}
@@ -52,7 +51,7 @@ type (
 )
 
 func mk(origin string, args []interface{}) *T {
-	return &T{Origin: FixturePkg + "." + origin, Args: args, Serial: atomic.AddInt64(&serial, 1)}
+	return &T{Origin: FixturePkg + "." + origin, Args: args, Serial: gvserial.Next()}
 }
 
 func NewA(args ...interface{}) *T    { count("NewA"); return mk("NewA", args) }
@@ -87,11 +86,11 @@ func (t T) WithY(args ...interface{}) T {
 // decorators
 func Decorate(p container.DecoratorPayload, args ...interface{}) interface{} {
 	count("Decorate")
-	return &T{Origin: FixturePkg + ".Decorate", Args: append([]interface{}{p.Tag, p.ServiceID, p.Service}, args...), Serial: atomic.AddInt64(&serial, 1)}
+	return &T{Origin: FixturePkg + ".Decorate", Args: append([]interface{}{p.Tag, p.ServiceID, p.Service}, args...), Serial: gvserial.Next()}
 }
 func Wrap(p container.DecoratorPayload, args ...interface{}) interface{} {
 	count("Wrap")
-	return &T{Origin: FixturePkg + ".Wrap", Args: append([]interface{}{p.Tag, p.ServiceID, p.Service}, args...), Serial: atomic.AddInt64(&serial, 1)}
+	return &T{Origin: FixturePkg + ".Wrap", Args: append([]interface{}{p.Tag, p.ServiceID, p.Service}, args...), Serial: gvserial.Next()}
 }
 
 // parameter functions
